@@ -331,7 +331,8 @@ pub fn run_prop(ctx: &Ctx, sink: &mut Sink) {
         vec!["t", "-true", "-a"], vec!["t", "-true", "-o"], vec!["t", "-true", ","], vec!["t", "-true", "!"], vec!["t", "!"],
         vec!["t", "-a", "-true"], vec!["t", "-o", "-true"], vec!["t", ",", "-true"],
         vec!["t", "-true", "!", "-a", "-false"], vec!["t", "-true", "-a", "-a", "-false"], vec!["t", "-true", "-a", "-o", "-false"],
-        vec!["t", "-true", "-o", "-o", "-false"], vec!["t", "-true", ",", ",", "-false"], vec!["t", "-true", "!", ",", "-false"],
+        vec!["t", "-true", "-o", "-o", "-false"], vec!["t", "-true", "!", "!", "-a", "-false"], vec!["t", "-type", "f", "-not", "-not", "-o", "-name", "x"],
+        vec!["t", "-true", "!", "!", ",", "-false"], vec!["t", "-true", "!", "!", "!", "-a", "-false"], vec!["t", "-true", ",", ",", "-false"], vec!["t", "-true", "!", ",", "-false"],
         vec!["t", "(", "-true"], vec!["t", "-true", ")"], vec!["t", "(", ")"], vec!["t", "-print", "(", ")"], vec!["t", "(", "(", "-true", ")"],
         vec!["t", "(", "-true", ")", ")"], vec!["t", "(", "-a", "-true", ")"], vec!["t", "(", "-true", "-o", ")"], vec!["t", "(", "!", ")"],
         vec!["t", "-name"], vec!["t", "-print", "-size"], vec!["t", "-fprintf", "out/o1"], vec!["t", "-exec"], vec!["t", "-exec", "true"],
@@ -351,6 +352,37 @@ pub fn run_prop(ctx: &Ctx, sink: &mut Sink) {
     for s in &shapes {
         let args: Vec<String> = s.iter().map(|x| x.to_string()).collect();
         push_case(ctx, sink, &cwd, &baseline, &args, vec!["shape"]);
+    }
+    // ---- every word sequence up to a length over the operators, parentheses and two primaries,
+    // through parse_args alone (the expression grammar exhaustively at small sizes)
+    {
+        let alpha: [&str; 9] = ["-true", "-print", "!", "-a", "-o", ",", "(", ")", "-not"];
+        let maxlen = if ctx.thorough { 7 } else { 5 };
+        let mut idx: Vec<usize> = vec![];
+        loop {
+            // next sequence in length-lexicographic order
+            let mut k = idx.len();
+            loop {
+                if k == 0 { idx = vec![0; idx.len() + 1]; break; }
+                k -= 1;
+                if idx[k] + 1 < alpha.len() { idx[k] += 1; for j in k + 1..idx.len() { idx[j] = 0; } break; }
+            }
+            if idx.len() > maxlen { break; }
+            // "-not" only as a spelling variant of "!" in the last position class (keeps the count down)
+            if idx.iter().filter(|&&i| i == 8).count() > 1 { continue; }
+            let mut args: Vec<String> = vec!["t".to_string()];
+            args.extend(idx.iter().map(|&i| alpha[i].to_string()));
+            let a2 = args.clone();
+            let old = std::env::current_dir().unwrap();
+            std::env::set_current_dir(&cwd).unwrap();
+            let imp = guarded(move || {
+                let v: Vec<&str> = a2.iter().map(|s| s.as_str()).collect();
+                match fh::parse_only(&v) { Ok(false) => "run".into(), Ok(true) => "help".into(), Err(_) => "reject-clean".into() }
+            });
+            std::env::set_current_dir(old).unwrap();
+            let words: Vec<String> = args.iter().map(|w| hex(w.as_bytes())).collect();
+            sink.push(Case { req: format!("cmdparse . {}", crate::wire::list(&words)), imp, tags: vec!["exhaustive-tokens", "nt"] });
+        }
     }
     // ---- entries removed by an earlier action, entries owned by unknown ids
     let removers: Vec<Vec<&str>> = vec![vec!["-exec", "rm", "-rf", "{}", ";"], vec!["-delete"], vec!["-depth", "-exec", "rm", "-rf", "{}", ";"]];
